@@ -240,6 +240,31 @@ pub fn generate(tier: Tier, emit: Emit) {
                         shape: shape.clone(),
                     });
                 }
+                // bare returns (the hint is checked against null), several of them, with a captured
+                // variable read after them; the value decides which return is taken
+                for n_returns in 1..=4usize {
+                    let mut body = vec![print(s("in f"))];
+                    for k in 0..n_returns {
+                        body.push(if_(cmp(id("sel"), CmpOp::Eq, int(k as i64)), vec![ret(None)], None));
+                    }
+                    body.push(print(id("captured")));
+                    body.push(id("rv"));
+                    let f_ret = x(E::Func(Rc::new(FuncDef {
+                        args: vec![ArgDef { pat: Pat::Id("rv".into(), None), default: None }, ArgDef { pat: Pat::Id("sel".into(), None), default: None }],
+                        variadic: false,
+                        body: blk(body),
+                        is_gen: false,
+                        out_hint: Some(hint.clone()),
+                        inline: false,
+                    })));
+                    for sel in [0i64, (n_returns - 1) as i64, 9] {
+                        emit(Case {
+                            family: "fn-return-bare",
+                            prog: mk(vec![assign("captured", s("cap")), assign("tf", f_ret.clone()), assign("res", callf("tf", vec![ve.clone(), int(sel)])), ok(), print(id("res"))]),
+                            shape: shape.clone(),
+                        });
+                    }
+                }
                 // 6. generator yield type
                 let g = x(E::Func(Rc::new(FuncDef {
                     args: vec![ArgDef { pat: Pat::Id("gv".into(), None), default: None }],
